@@ -1212,6 +1212,11 @@ func (e *Engine) execGo(st *State, s *ast.GoStmt) []*State {
 	return out
 }
 
+// StrConst returns the interned abstract value of a string constant.
+func (e *Engine) StrConst(s string) *Val {
+	return e.constVal(constant.MakeString(s), types.Typ[types.UntypedString])
+}
+
 // IntConst returns the interned abstract value of an integer constant.
 func (e *Engine) IntConst(n int64) *Val {
 	return e.constVal(constant.MakeInt64(n), types.Typ[types.UntypedInt])
